@@ -58,6 +58,7 @@ type reqRec struct {
 type dhServer struct {
 	mu    sync.Mutex
 	st    *fakeStore
+	times map[peer.ID]string // LastAdvertisementTime per provider; absent: a fixed valid time
 	known map[peer.ID]int
 	pfx   string
 	reqs  []reqRec
@@ -162,22 +163,39 @@ func (d *dhServer) handle(w http.ResponseWriter, r *http.Request) {
 		w.Header().Set("Content-Type", "application/json")
 		_, _ = w.Write(good)
 	case path == "/providers":
-		var all []*model.ProviderInfo
+		all := []*model.ProviderInfo{}
+		d.mu.Lock()
 		for id, tag := range d.known {
-			all = append(all, &model.ProviderInfo{AddrInfo: peer.AddrInfo{ID: id, Addrs: []multiaddr.Multiaddr{tagAddr(tag)}}, LastAdvertisementTime: "2024-01-01T00:00:00Z"})
+			all = append(all, d.infoOf(id, tag))
 		}
+		d.mu.Unlock()
 		_ = json.NewEncoder(w).Encode(all)
 	case strings.HasPrefix(path, "/providers/"):
 		id, err := peer.Decode(strings.TrimPrefix(path, "/providers/"))
+		d.mu.Lock()
 		tag, ok := d.known[id]
+		var pi *model.ProviderInfo
+		if ok {
+			pi = d.infoOf(id, tag)
+		}
+		d.mu.Unlock()
 		if err != nil || !ok {
 			http.Error(w, "unknown provider", http.StatusNotFound)
 			return
 		}
-		_ = json.NewEncoder(w).Encode(model.ProviderInfo{AddrInfo: peer.AddrInfo{ID: id, Addrs: []multiaddr.Multiaddr{tagAddr(tag)}}, LastAdvertisementTime: "2024-01-01T00:00:00Z"})
+		_ = json.NewEncoder(w).Encode(pi)
 	default:
 		http.Error(w, "no such endpoint", http.StatusNotFound)
 	}
+}
+
+// infoOf: the record the provider source serves (caller holds d.mu)
+func (d *dhServer) infoOf(id peer.ID, tag int) *model.ProviderInfo {
+	t, ok := d.times[id]
+	if !ok {
+		t = "2024-01-01T00:00:00Z"
+	}
+	return &model.ProviderInfo{AddrInfo: peer.AddrInfo{ID: id, Addrs: []multiaddr.Multiaddr{tagAddr(tag)}}, LastAdvertisementTime: t}
 }
 
 type hEnv struct {
@@ -456,6 +474,61 @@ func sizeScenarios(rng *vlib.Rand, pool []pidInfo, thorough bool) []*hScenario {
 	return out
 }
 
+// lateProviderCases: a provider that no source knows when it is first looked up (the cache
+// remembers that) registers later -- with a timestamp, WITHOUT one, with an unparsable one --
+// and the cache is refreshed: from then on find must return it like any other provider.
+func (r *run) lateProviderCases(rng *vlib.Rand) {
+	for vi, when := range []string{"", "2024-03-01T00:00:00Z", "yesterday"} {
+		for _, preload := range []bool{false, true} {
+			r.c.Count("hfind-late-provider")
+			pool := makePeerPool(r.c.Rng.Fork("findpool"), 5, 1, 2)
+			late, early := pool[(2*vi+1)%len(pool)], pool[(2*vi+2)%len(pool)]
+			d := &dhServer{st: newFakeStore(), known: map[peer.ID]int{early.ID: 7}, times: map[peer.ID]string{}}
+			d.srv = httptest.NewServer(http.HandlerFunc(d.handle))
+			env := &hEnv{pool: pool, known: d.known, knownSeq: []peer.ID{early.ID}, dh: d, clients: map[string]*client.DHashClient{}}
+			cl, err := client.NewDHashClient(client.WithDHStoreURL(d.srv.URL), client.WithPcachePreload(preload), client.WithPcacheTTL(time.Hour))
+			if err != nil {
+				d.srv.Close()
+				r.c.Fail("hfind:late-provider:constructor", err.Error(), map[string]string{"kind": "constructor", "name": "late"})
+				continue
+			}
+			env.clients[fmt.Sprint(2, "")] = cl
+			m, _ := multihash.Sum(rng.Bytes(16), multihash.SHA2_256, -1)
+			mh := hex.EncodeToString(m)
+			mkE := func(p pidInfo, ctx string) fEntry {
+				return fEntry{Pid: hex.EncodeToString([]byte(p.ID)), Ctx: hex.EncodeToString([]byte(ctx)), Md: hex.EncodeToString(rng.Bytes(5))}
+			}
+			h := &hScenario{Kind: "hfind", Mode: 2, Sc: findScenario{Kind: "find", Query: mh, PCache: true,
+				Rows: []fRow{{Mh: mh, Groups: 1, Entries: []fEntry{mkE(late, "a"), mkE(early, "b"), mkE(late, "c")}}}}}
+			sig := fmt.Sprintf("hfind:late-provider:time=%q:preload=%v", when, preload)
+			fail := func(step, msg string) {
+				r.c.Fail(sig+":"+step, "provider registered after the first look-up ("+step+"): "+msg,
+					map[string]interface{}{"kind": "late-provider", "time": when, "preload": preload})
+			}
+			// 1. before anybody knows the provider
+			if msg := r.runH(env, h, true); msg != "" {
+				fail("before", msg)
+			}
+			// 2. it registers; the cache refreshes
+			d.mu.Lock()
+			d.known[late.ID] = 9
+			d.times[late.ID] = when
+			d.mu.Unlock()
+			env.knownSeq = append(env.knownSeq, late.ID)
+			ctx, cancel := context.WithTimeout(context.Background(), 10*time.Second)
+			if err := cl.PCache().Refresh(ctx); err != nil {
+				fail("refresh", err.Error())
+			}
+			cancel()
+			// 3. from now on it is a provider like any other
+			if msg := r.runH(env, h, true); msg != "" {
+				fail("after", msg)
+			}
+			d.srv.Close()
+		}
+	}
+}
+
 func hSig(h *hScenario) string {
 	return fmt.Sprintf("h%s:mode%d:prefix=%q", scenarioSig(&h.Sc), h.Mode, h.Prefix)
 }
@@ -525,6 +598,7 @@ func (r *run) hfindCases() {
 			r.c.Fail("hfind:cancelled", "FindAsync did not return after its context was cancelled", map[string]string{"kind": "constructor", "name": "cancelled"})
 		}
 	}
+	r.lateProviderCases(rng)
 	fails := 0
 	var scenarios []*hScenario
 	for i := 0; i < r.c.Pick(200, 3000); i++ {
